@@ -16,7 +16,7 @@ RULE = ("histories = (write plan: tick -> value, same or different values, write
         "(2-3 flat frames, each with one go: unconditional, `is updated` or `is changed`, with / without `in frame [name]`, with / "
         "without shared `by` marks); a slice is enumerated exhaustively (all 2-frame programs over the option grid x 6 write plans), "
         "the rest is seeded random; histories in which an entry reset and a taken-transition reset hit the same mark in the same "
-        "tick are counted ambiguous and excluded; distinct = distinct (program, plan); non-trivial = at least one marker-guarded "
+        "tick are counted ambiguous and excluded; the observed framer as two clones of a moot framer; update / change conditions as the condition of a conditional auxiliary (refused starts, one-shot auxiliaries); distinct = distinct (program, plan); non-trivial = at least one marker-guarded "
         "transition taken and one refused")
 META = {"engine": "A floscript", "technique": "runtime monitor of per-tick active frame vs marker-rule model on tick numbers",
         "level_text": "The active frame at the end of every tick of each generated history is compared with a direct transcription of the "
